@@ -539,7 +539,8 @@ def _check(case):
                     if type(canon(outer)) is not type(canon(model[0][0])) and not isinstance(model[0][0], np.datetime64):
                         outer = ('zq%d' % dv['j']) if isinstance(model[0][0], str) else 7100 + dv['j']
                         if isinstance(model[0][0], tuple):
-                            outer = ('zq%d' % dv['j'], 0)   # (a new outer label of the same form as the others: a tuple)
+                            # (a new outer label of the same form as the others: a tuple whose first element has their type)
+                            outer = (('zq%d' % dv['j']) if isinstance(model[0][0][0], str) else (np.datetime64(19900 + dv['j'], 'D') if isinstance(model[0][0][0], np.datetime64) else 7100 + dv['j']), 0)
                     if isinstance(model[0][0], np.datetime64):
                         outer = np.datetime64(19900 + dv['j'], 'D')
                     a0 = (outer,) + model[-1][1:]
